@@ -4,11 +4,12 @@ from ..qcheck import mk_case, run_cases
 from ..common import dec_val, run_go, canon
 
 MODULE = "Genql.Properties.C03"
-LEAN_TARGETS = [MODULE]
+LEAN_TARGETS = [MODULE, "Genql.Properties.GroupModel"]
 THEOREMS = ["Genql.C03." + t for t in [
     "groupLoop_pure", "groups_eq_spec", "groups_first_appearance", "groups_nodup_keys", "mem_group_iff", "same_group_iff",
     "groups_partition", "count_conservation", "sum_ignores_null", "minmax_spec", "avg_is_sum_div_count", "count_spec",
-    "whole_table_one_row"]]
+    "whole_table_one_row"]] + \
+    ["Genql.GroupModel." + t for t in ["goEq_scalar", "groupLoop_on", "evalSel_group", "group_count_model", "group_count_groups", "group_count_sum"]]
 TRUSTED = ["IEEE-754 summation order is the source order in both model and Go (left fold)", "sqlparser"]
 RULE = ("random tables (0-14 rows; 1-3 grouping columns with NULL / missing keys, single-group and all-distinct shapes) x "
         "select lists mixing grouping columns, *, COUNT/SUM/MIN/MAX/AVG (same function on different columns) x WHERE x HAVING; "
@@ -152,8 +153,11 @@ def explore(chk, rnd, tier):
 LEVEL_TEXT = ("Lean theorems: the ExecGroupBy scan equals the textbook grouping (distinct keys in order of first appearance, each "
               "group = the rows with that key in source order): partition, key uniqueness, same-group-iff-same-key, COUNT "
               "conservation; aggregate loops (SUM/MIN/MAX ignore NULL, NULL if none; AVG = SUM/COUNT without NULLs; COUNT(*) = "
-              "group size); whole-table aggregates yield one row over the WHERE-filtered rows. Correspondence incl. repeated "
-              "runs for order stability.")
+              "group size); whole-table aggregates yield one row over the WHERE-filtered rows. End to end for the executable "
+              "model (group_count_model): SELECT g, COUNT(*) AS n FROM t WHERE p GROUP BY g returns exactly the textbook grouping of "
+              "the rows that passed WHERE (key reading, Go == on keys, the member list, HAVING, the select list per group all "
+              "unfolded), first-appearance order, counts adding up to the kept rows. Correspondence incl. repeated runs for "
+              "order stability.")
 LEVEL_NOTE = ("Group-key equality is Go `==` on scalars (modelled, panics on slices/maps mapped to errors). Aggregates proved over a "
               "lawful abstract number type; float summation order is the same left fold in model and code.")
 TECHNIQUE = "Lean 4 proof (induction over the row list; refinement of the scan to eraseDups/filter spec) + differential correspondence"
